@@ -171,3 +171,31 @@ void h_enf_DecoderBuffer_Advance(void) { GHOSTS(); struct DecoderBuffer b; int64
 #ifdef VERIF_CBMC
 void h_enf_EncoderBuffer_EncodeBytes(void) { GHOSTS(); struct EncoderBuffer *e; const void *d; size_t n; EncoderBuffer_EncodeBytes(e, d, n); HARNESS_END(); }
 #endif
+
+/* ------------------------------------------------------------------ format pins (C05): absolute byte layouts, independent of the decoder */
+void h_fmt_varint_layout(void) {
+  NONDET(uint32_t, x);
+  char store[VR_CAP]; for (int i = 0; i < VR_CAP; ++i) store[i] = 0x5a;
+  struct EncoderBuffer eb; eb.buffer_.data = store; eb.buffer_.size = 0; eb.buffer_.cap = VR_CAP; eb.bit_encoder_ = NULL; eb.bit_encoder_reserved_bytes_ = 0; eb.encode_bit_sequence_size_ = false;
+  bool ok = EncodeVarint_u32(x, &eb);
+  size_t len = x < (1u << 7) ? 1 : x < (1u << 14) ? 2 : x < (1u << 21) ? 3 : x < (1u << 28) ? 4 : 5;
+  ASSERT(ok && eb.buffer_.size == len, "fmt.varint.minimal_length");
+  for (int i = 0; i < 5; ++i) ASSERT((size_t)i >= len || (uint8_t)store[i] == (uint8_t)(((x >> (7 * i)) & 0x7f) | ((size_t)i + 1 < len ? 0x80 : 0)), "fmt.varint.seven_bits_lsb_first_with_continuation_flag");
+  HARNESS_END();
+}
+void h_fmt_bitseq_gate(void) {
+  NONDET(uint16_t, version); NONDET_ARR(uint8_t, bytes, 12); NONDET(int64_t, n);
+  ASSUME(n >= 0 && n <= 12);
+  char store[12]; for (int i = 0; i < 12; ++i) store[i] = (char)bytes[i];
+  struct DecoderBuffer db; db.data_ = store; db.data_size_ = n; db.pos_ = 0; db.bit_mode_ = false; db.bitstream_version_ = version;
+  db.bit_decoder_.bit_buffer_ = NULL; db.bit_decoder_.bit_buffer_end_ = NULL; db.bit_decoder_.bit_offset_ = 0;
+  uint64_t sz = 0; bool ok = DecoderBuffer_StartBitDecoding(&db, true, &sz);
+  if (version < ((2 << 8) | 2)) {
+    ASSERT(ok == (n >= 8), "fmt.bitseq.legacy_size_is_fixed_64_bit");
+    ASSERT(!ok || (db.pos_ == 8 && sz == LE64(store)), "fmt.bitseq.legacy_size_value");
+  } else {
+    ASSERT(!ok || (db.pos_ >= 1 && db.pos_ <= 10 && ((uint8_t)store[db.pos_ - 1] & 0x80) == 0), "fmt.bitseq.size_is_varint_from_2_2");
+    ASSERT(!(n >= 1 && (bytes[0] & 0x80) == 0) || (ok && db.pos_ == 1 && sz == bytes[0]), "fmt.bitseq.single_byte_varint");
+  }
+  HARNESS_END();
+}
